@@ -77,6 +77,8 @@ theorem inboundData_g {wa : Bool} (a : Agent) (now : Nat) (l : Cand) (src len : 
   rw [C03.inboundData_eq]
   split
   · exact idFind_g a now l src
+  split
+  · exact idFind_g a now l src
   · exact (idFind_g a now l src).trans (idCount_g _ len)
 
 /-! ## a forced tick after a handler -/
